@@ -20,8 +20,7 @@ static inline void c14_sv_any(struct static_vector *v, size_t m, const int *vals
     v->m_size = m;
 #ifdef WITNESS_MODE
     for (size_t i = 0; i < CAP; i++) {
-        v->_data[i].v = vals[i];
-        v->_data[i].g_state = i < m ? ELEM_LIVE : ELEM_RAW;
+        ELEM_SET(&v->_data[i], i < m ? ELEM_LIVE : ELEM_RAW, vals[i]);
     }
 #else
     (void)vals;
@@ -49,10 +48,10 @@ static inline ELEM *c14_input(size_t n, const int *vals)
 {
     ELEM *a = (ELEM *)NEW_OBJ(n * sizeof(ELEM));
 #ifdef WITNESS_MODE
-    for (size_t i = 0; i < n; i++) { a[i].v = vals[i]; a[i].g_state = ELEM_LIVE; }
+    for (size_t i = 0; i < n; i++) ELEM_SET(&a[i], ELEM_LIVE, vals[i]);
 #else
     (void)vals;
-    if (g_k < n) __CPROVER_assume(a[g_k].g_state == ELEM_LIVE);
+    if (g_k < n) __CPROVER_assume(ELEM_ST(&a[g_k]) == ELEM_LIVE);
 #endif
     return a;
 }
